@@ -3009,6 +3009,9 @@ func ReplayRename(input json.RawMessage) (bool, string) {
 // decides those on the small systems): reported at once, the run ends here
 // because stuck goroutines may keep allocating.
 func hungViolation(r *chk.Run, what, kind string, replay interface{}) {
+	if !r.StallReproduces(kind, replay) {
+		return
+	}
 	r.Report(chk.Violation{Key: "no-progress", What: what + ": Stream did not return within 60 s although the master had served the whole history and ended the dump (a decode loop that does not end, a wait that nothing ends)", Kind: kind, Replay: replay})
 	r.SetExhaustive(false)
 	r.Finish()
